@@ -778,6 +778,8 @@ register(PropertySpec(
              "the record of what was pulled from a one-shot source is appended to only with the value just pulled, and emptied only by clear()"),
         Rule("CONCLUSION-VARS-BOUND", _lazy("ruletree", "rule_conclusion_vars_bound"), 1,
              "(shared with C12) which variables a conclusion leaves unbound is looked up for every row that fires (a variable without a domain mentioned only by the conclusion of a later branch ranges over the registry too)"),
+        Rule("EXPR-IDENTITY", _lazy("ruletree", "rule_expr_identity"), 1,
+             "(shared with C12) engine code compares nodes by identity (== / in on a node reads an unset field of the graph node, or builds a comparison)"),
     ],
     explanation="Registry discipline is ownership: a single writer, on a must-pass-through path of the concrete "
                 "constructor arm, keyed by the runtime class; the symbolic arm provably (call-graph closure) cannot "
@@ -1193,6 +1195,8 @@ register(PropertySpec(
              "the record of what was pulled from a one-shot source is appended to only with the value just pulled, and emptied only by clear()"),
         Rule("VARS-COMPLETE", _lazy("subquery", "rule_vars_complete"), 8,
              "the variables of a node are those of every sub-expression it evaluates, of whatever kind; a node counts itself only if it takes several values under one binding"),
+        Rule("EXPR-IDENTITY", _lazy("ruletree", "rule_expr_identity"), 1,
+             "(shared with C12) engine code compares nodes by identity (== / in on a node reads an unset field of the graph node, or builds a comparison)"),
     ],
     explanation="All clauses are weak but necessary: arguments evaluated under the current binding, one construction "
                 "per combination, no retrieval instead of construction for inferred variables, existing objects passed "
